@@ -816,6 +816,8 @@ class Harness(object):
 
     def a_respond(self, a):
         i = a['i']
+        if self.conn.is_defunct:
+            return      # reactors stop reading a defunct connection (and process_io_buffer no longer goes past a frame header then)
         if self.to_ctx is None and self.in_nested and getattr(self, '_in_timeout', 0):
             self.race_exercised = True       # a response processed between _on_timeout's pop and its orphan region
         ent = [w for w in self.wire if w[0] == i]
@@ -926,7 +928,7 @@ class Harness(object):
 
     def a_push_event(self, a):
         """a server-pushed EVENT frame (stream -1, STATUS_CHANGE UP) through the real process_io_buffer / process_msg"""
-        if self.conn.is_closed:
+        if self.conn.is_closed or self.conn.is_defunct:
             return
         st = lambda x: struct.pack('>H', len(x)) + x
         body = st(b'STATUS_CHANGE') + st(b'UP') + bytes([4, 10, 0, 0, 9]) + struct.pack('>i', 9042)
